@@ -346,6 +346,13 @@ def run(ctx: Ctx) -> int:
     ctx.extra["handwritten_builds"] = hw_runs
     ctx.extra["real_packages"] = real_pk
     ctx.extra["schedules_per_real_package"] = K
+    # ---- the post-processing step over a history of registrations and passes (PostProc.tla, every history replayed into
+    #      PriorityProcessor, a sample into a real System): what runs after the last module does not depend on how it got there
+    from .. import postproccheck
+    if ctx.quick:
+        ctx.extra["postproc"] = postproccheck.run(ctx, 4, [0, 100, 200], [0, 1, 300], 7)
+    else:
+        ctx.extra["postproc"] = postproccheck.run(ctx, 5, [0, 50, 100, 200], [0, 1, 300], 11)
     # ---- negative control: the comparison notices a changed base
     any_cls = next((r for r in results if any(v["cls"] == "Class" and v["bases"] and v["bases"][0] for v in r["real"]["dump"].values())), None)
     if any_cls is None:
@@ -373,6 +380,14 @@ def replay(ctx: Ctx, path: str) -> int:
     w = json.load(open(path))
     o = w["origin"]
     bad = False
+    if o.get("family") == "postproc":
+        from .. import postproccheck
+        failed = postproccheck.replay_witness(ctx, o["prekind"], o["history"])
+        print("replay:", "still violated: " + ",".join(failed) if failed else "holds now")
+        if failed:
+            print(f"VIOLATION property=C06 replay={path}")
+        ctx.cleanup()
+        return 1 if failed else 0
     if w.get("handwritten"):
         from .. import handwritten
         case = next(c for c in handwritten.cases() if c["name"] == w["handwritten"])
